@@ -3,11 +3,14 @@ use crate::runner::Property;
 pub mod c01;
 pub mod c02;
 pub mod c03;
+pub mod c04;
+pub mod c05;
 pub mod c06;
 pub mod c07;
 pub mod c08;
 pub mod c09;
 pub mod c10;
+pub mod c12;
 pub mod c13;
 pub mod c15;
 pub mod c16;
@@ -15,7 +18,7 @@ pub mod c19;
 pub mod c20;
 
 pub fn all_ids() -> Vec<&'static str> {
-    vec!["C01", "C02", "C03", "C06", "C07", "C08", "C09", "C10", "C13", "C15", "C16", "C19", "C20"]
+    vec!["C01", "C02", "C03", "C04", "C05", "C06", "C07", "C08", "C09", "C10", "C12", "C13", "C15", "C16", "C19", "C20"]
 }
 
 pub fn get(id: &str) -> Option<Property> {
@@ -23,11 +26,14 @@ pub fn get(id: &str) -> Option<Property> {
         "C01" => Some(c01::property()),
         "C02" => Some(c02::property()),
         "C03" => Some(c03::property()),
+        "C04" => Some(c04::property()),
+        "C05" => Some(c05::property()),
         "C06" => Some(c06::property()),
         "C07" => Some(c07::property()),
         "C08" => Some(c08::property()),
         "C09" => Some(c09::property()),
         "C10" => Some(c10::property()),
+        "C12" => Some(c12::property()),
         "C13" => Some(c13::property()),
         "C15" => Some(c15::property()),
         "C16" => Some(c16::property()),
